@@ -14,7 +14,8 @@ RULE = (
     "Hypothesis draws a theory/observable card pair (all schemes incl. FONLL threshold rewriting, every target "
     "spelling and {Z,A} dicts, legacy keys alphaqed/QED/PTODIS/FONLLParts/RenScaleVar/FactScaleVar/MZ/SIN2TW present "
     "or absent, unsorted grids, grids and kinematics given as numpy objects, one kinematics list object shared by "
-    "several observables) and a history of up to 8 operations on the *same* dict objects: construct a Runner, "
+    "several observables; one case in sixteen is a request at x = 2e-9 in FFNS at NNLO, where the raw result contains non-finite numbers and the "
+    "runner's NaN-replacement path builds the output) and a history of up to 8 operations on the *same* dict objects: construct a Runner, "
     "get_result on any existing runner (repeatedly), compatibility.update, run_yadism. After every step a type-strict "
     "deep snapshot (values, types, dtypes, aliasing structure) of both cards must equal the one taken before the "
     "history; update must be idempotent; every output must echo the cards, the sorted grid, degree, log flag, the 14 "
@@ -29,7 +30,7 @@ ASSUMPTIONS = [
 BUDGET = {"quick": {"examples": 2000, "wall": 300}, "thorough": {"examples": 60000, "wall": 2400}}
 MANDATORY = {
     t: ["nontrivial", "op:runner", "op:result", "op:update", "op:run_yadism", "alias:kinematics", "numpy:grid", "numpy:kin",
-        "legacy:absent", "fns:FONLL", "target:name", "grid:unsorted", "rerun"]
+        "legacy:absent", "fns:FONLL", "target:name", "grid:unsorted", "rerun", "nan-replacement-path"]
     for t in ("quick", "thorough")
 }
 SHRINK = {"quick": True, "thorough": True}
@@ -54,6 +55,18 @@ def cases(draw, tier="quick"):
         )
     )
     th, ob, meta = cfg["theory"], cfg["obs"], cfg["meta"]
+    if draw(st.integers(0, 15)) == 0:
+        # the runner's NaN-replacement path: at x ~ 1e-9 the NNLO massive corrections on the light-quark line come back non-finite
+        # from the massive library and Runner.replace_nans_with_0 rebuilds the output - the cards must be echoed all the same
+        kind = draw(st.sampled_from(["F2", "FL"]))
+        name = f"{kind}_{draw(st.sampled_from(['light', 'total']))}"
+        th.update({"FNS": "FFNS", "NfFF": 3, "PTO": 2, "TMC": 0, "mc": 1.51, "mb": 4.92, "mt": 172.5})
+        if ob["prDIS"] == "CC":
+            ob["prDIS"], ob["ProjectileDIS"] = "EM", "electron"
+        ob["interpolation_xgrid"] = [1e-9, 6.30957344480193e-08, 3.98107170553497e-06, 0.000251188643150958, 0.0158489319246111, 1.0]
+        ob["interpolation_polynomial_degree"], ob["interpolation_is_log"] = 2, True
+        ob["observables"] = {name: [{"x": 2e-9, "Q2": 10.0}]}
+        meta.update({"name": name, "kind": kind, "heavyness": name.split("_")[1], "scheme": "FFNS", "pto": 2, "tmc": 0, "process": ob["prDIS"], "nan_path": True})
     # legacy / optional keys: present with a value, or absent
     th["PTODIS"] = draw(st.sampled_from([None, th["PTO"]]))
     drop = draw(st.lists(st.sampled_from(LEGACY), unique=True, max_size=4))
@@ -143,6 +156,8 @@ def check_case(case):
     fns = th["FNS"]
     v.label("fns:FONLL" if fns.startswith("FONLL") else f"fns:{fns}")
     v.label("target:name" if isinstance(ob["TargetDIS"], str) else "target:ZA")
+    if case["meta"].get("nan_path"):
+        v.label("nan-replacement-path")
     if any(k not in th for k in LEGACY) or th.get("PTODIS") is None:
         v.label("legacy:absent")
     if case["second"] and case["share_kin"] and not case["second"].startswith("XS"):
